@@ -267,6 +267,11 @@ func (r *runner) observe(s *vs.Sched) *Obs {
 }
 
 func runWorkflowJob(job *Job, res *Result) {
+	if job.Base == "" {
+		job.Base = fmt.Sprintf("/dev/shm/vw-%d", os.Getpid())
+	}
+	cwdPrefix = filepath.Join(job.Base, "e") + "/"
+	job.Scen.Cwd = filepath.Join(job.Base, "e")
 	spec := job.Spec
 	if spec == nil {
 		spec = catalog(job.Scen)
